@@ -42,6 +42,11 @@ type Strategy struct {
 	Site     int  `json:"site,omitempty"`
 	Skip     int  `json:"skip,omitempty"`
 	Resolved bool `json:"resolved,omitempty"`
+	// Second > 0: after Task is parked, the next task is parked as well after
+	// Second of its yields (mid-use of whatever it acquired); Task then runs
+	// to completion, then everybody else. Depth-2 schedules such as "A puts an
+	// object back, B takes it and is using it, A resets it".
+	Second int `json:"second,omitempty"`
 }
 
 func (s Strategy) String() string {
@@ -53,7 +58,7 @@ func (s Strategy) String() string {
 	case "rr":
 		return fmt.Sprintf("rr(q<=%d)", s.Q)
 	case "sweep":
-		return fmt.Sprintf("sweep(task=%d site=%s skip=%d)", s.Task, siteName(s.Site), s.Skip)
+		return fmt.Sprintf("sweep(task=%d site=%s skip=%d second=%d)", s.Task, siteName(s.Site), s.Skip, s.Second)
 	}
 	return s.Kind
 }
@@ -119,9 +124,12 @@ type Sim struct {
 	// rr
 	quantum int
 	// sweep
-	fired    bool
-	skipLeft int
-	forced   bool // the last park was a forced switch (lock not available)
+	fired      bool
+	skipLeft   int
+	forced     bool // the last park was a forced switch (lock not available)
+	secondLeft int
+	secondTask *Task
+	secondDone bool
 
 	monitors []func(site int)
 
@@ -276,6 +284,20 @@ func (s *Sim) decide(t *Task, site int) bool {
 	case "boundary":
 		return site == 0 && s.rng.Bool()
 	case "sweep":
+		if s.fired && !s.secondDone && s.strat.Second > 0 && t.id != s.strat.Task {
+			if s.secondTask == nil {
+				s.secondTask, s.secondLeft = t, s.strat.Second
+			}
+			if t == s.secondTask {
+				s.secondLeft--
+				if s.secondLeft <= 0 {
+					s.secondDone = true
+					s.probe("sweep_second_fired")
+					return true
+				}
+			}
+			return false
+		}
 		if !s.fired && t.id == s.strat.Task && site == s.strat.Site && site > 0 {
 			if s.skipLeft <= 0 {
 				s.fired = true
@@ -371,6 +393,13 @@ func (s *Sim) pickNext() *Task {
 				return s.tasks[tgt]
 			}
 			return live[0]
+		}
+		if s.strat.Second > 0 && s.secondDone && !s.tasks[tgt].done {
+			// both parked: the first one resumes and runs to completion
+			return s.tasks[tgt]
+		}
+		if s.strat.Second > 0 && !s.secondDone && s.secondTask != nil && s.secondTask.done {
+			s.secondDone = true // it finished before its second preemption point
 		}
 		for _, t := range live {
 			if t.id != tgt {
@@ -631,8 +660,24 @@ func resolveSweep(st *Strategy, tasks []TaskSpec, refs map[string]unitRef) {
 		sites = append(sites, site)
 	}
 	sortInts(sites)
+	// statements that synchronise, and the first statement after one (the gap
+	// between two critical sections), are where atomicity violations live: when
+	// the profile contains any, they are preferred
+	var syncSites []int
+	for _, site := range sites {
+		if site > 0 && site < len(siteSync) && siteSync[site] {
+			syncSites = append(syncSites, site)
+		}
+	}
+	if len(syncSites) > 0 && r.Chance(0.6) {
+		sites = syncSites
+	}
 	st.Site = sites[r.Intn(len(sites))]
 	st.Skip = r.Intn(int(agg[st.Site]))
+	if r.Chance(0.35) {
+		// depth 2: park the next task too, after 1..~3000 of its yields (log-uniform)
+		st.Second = 1 + int(r.U64()%uint64(1<<uint(r.Range(1, 12))))
+	}
 	if r.Chance(0.5) {
 		st.Skip = 0 // the first visit is the one lazily initialised state depends on
 	}
